@@ -59,7 +59,7 @@ def near_miss(rnd):
         elif op == 12:
             s = s.replace("(", rnd.choice([" (", "((", "[", ""]), 1)
         elif op == 13:
-            s = s[:p] + rnd.choice(["\x00", "\n", "​", "\ud800", "\x7f", "\\", "'", '"', "١"]) + s[p:]
+            s = s[:p] + rnd.choice(["\x00", "\n", "​", "\ud800", "\x7f", "\\", "'", '"', "١", "{}", "{0}", "{", "}", "%s", "%(a)s", "{a.b}"]) + s[p:]
         elif op == 14:
             s = s.upper() if rnd.random() < 0.5 else s.swapcase()
         else:
@@ -94,10 +94,14 @@ def special_string(rnd):
                        "hsl(nan, 50%, 50%)", "hsl(inf, 50%, 50%)", "hsla(0,0%,0%,nan)", "hsla(0, 0%, 0%, )", "hsla(, , , )", "hsla(1,2,3,4,5)", "hsl(1 2 3)", "hsl(%,%,%)",
                        "hsl(0, 5, 5)", "hsl(0, -5%, 50%)", "hsl(0, 150%, 50%)", "rgba(0,0,0,2)", "rgba(0,0,0,-1)", "rgba(0,0,0,101)", "rgb(256,0,0)", "rgb(-1,0,0)",
                        "rgb(0 0 0 / 50%)", "1 2", "1 2 3 4 5", "1,2,3,4,5,6", "( , )", "rgb (1,2,3)", "hsl (1,2%,3%)", "hsla(0deg,0%,0%,0.5)", "hsla(0,0%,0%,0.5", "hsla0,0%,0%,0.5)",
+                       # text that means something to str.format / % / string.Template when spliced into a message template
+                       "rgb(300, 2, 3) {}", "rgb(300, 2, 3) {name}", "rgba(1, 2, 3, 7) {0} {1}", "300, 2, 3 {", "{}", "{0}", "{x!r:>{y}}", "hsl(400, 2, 3) {}", "#12 {}",
+                       "rgb(300, 2, 3) %s", "rgb(300, 2, 3) %(x)s %d", "%", "%s", "$x ${y}", "rgb(300,2,3) \\1 \\g<0>", "[1, 2, 300] {}", "(1, 2, 3, 4, 5) {}",
                        "None", "True", "nan", "inf", "-inf", "nan, nan, nan", "inf,inf,inf", "1e5,1e5,1e5", "٣, ٣, ٣", "１２, １２, １２", "²,²,²", "١٢٣"])
 
 
 ELEMS_NUM = [0, 1, 2, 127, 128, 255, 256, -1, 300, 360, 361, 10 ** 6, -10 ** 6, 2 ** 70, -2 ** 70, 10 ** 400, -10 ** 400, 10 ** 309,
+             10 ** 5000, -10 ** 5000,      # beyond the interpreter's int -> str conversion limit: str()/repr()/format of these raise ValueError
              0.0, -0.0, 0.5, 1.0, 1.5, 0.999, 255.0, 255.5, 256.0, -0.5, 1e-9, 1e300, float("nan"), float("inf"), float("-inf"), 120.0, 359.9, 360.0, 100.0]
 ELEMS_STR = ["0", "255", "50%", "100%", "0.5", "1", "abc", "", " ", "12px", "1e2", "-1", "nan", "inf", "٣", "None", "#fff", "red", "120", "50", ".5", "1.", "%"]
 
@@ -137,10 +141,20 @@ def shards(tier, seed):
     return [{"kind": "fuzz", "seed": seed, "idx": i, "n": SIZES[tier]} for i in range(16)]
 
 
+def R(x):
+    """repr() that also works for ints beyond the interpreter's decimal-conversion limit (sys.get_int_max_str_digits)."""
+    if type(x) is int and abs(x).bit_length() > 3000:
+        return hex(x)
+    if isinstance(x, (tuple, list)):
+        inner = ", ".join(R(v) for v in x)
+        return ("(" + inner + ("," if len(x) == 1 else "") + ")") if isinstance(x, tuple) else ("[" + inner + "]")
+    return repr(x)
+
+
 def jsonable(x):
     if isinstance(x, str):
         return {"str": x.encode("utf-8", "surrogatepass").hex()}
-    return {"seq": "tuple" if isinstance(x, tuple) else "list", "items": [repr(v) for v in x]}
+    return {"seq": "tuple" if isinstance(x, tuple) else "list", "items": [R(v) for v in x]}
 
 
 def from_json(d):
@@ -160,16 +174,16 @@ def check_color(rec, lib, x, case, bgctx=False):
         if isinstance(e, (KeyboardInterrupt, SystemExit, MemoryError)):
             raise
         rec.count("raised:" + type(e).__name__)
-        rec.violation(f"Color({x!r}) raised {type(e).__name__}: {e}", case, key=None)
+        rec.violation(f"Color({R(x)}) raised {type(e).__name__}: {e}", case, key=None)
         return None
     rec.count("color_constructed")
     if valid:
         if not (type(rgb) is tuple and len(rgb) == 3 and all(type(v) is int and 0 <= v <= 255 for v in rgb)):
-            rec.violation(f"Color({x!r}) is_valid but rgb = {rgb!r} (must be three ints in 0..255)", case)
+            rec.violation(f"Color({R(x)}) is_valid but rgb = {R(rgb)} (must be three ints in 0..255)", case)
             return None
         return True
     if rgb is not None or not (isinstance(err, str) and err.strip()):
-        rec.violation(f"Color({x!r}) invalid but rgb={rgb!r}, error={err!r} (rgb must be None with a non-empty message)", case)
+        rec.violation(f"Color({R(x)}) invalid but rgb={R(rgb)}, error={err!r} (rgb must be None with a non-empty message)", case)
         return None
     return False
 
@@ -189,7 +203,7 @@ def work(shard, rec):
             continue
         rec.count("valid_inputs" if v else "invalid_inputs")
         if not v:
-            rec.nontrivial(repr(x))
+            rec.nontrivial(R(x))
         good = rnd.choice(["#777", (10, 20, 30), "rgb(200, 200, 200)", "white"])
         for t, b, expect_valid in ((x, good, v), (good, x, v), (x, x, v)):
             try:
@@ -198,31 +212,31 @@ def work(shard, rec):
             except BaseException as e:
                 if isinstance(e, (KeyboardInterrupt, SystemExit, MemoryError)):
                     raise
-                rec.violation(f"ColorPair({t!r},{b!r}) raised {type(e).__name__}: {e}", case)
+                rec.violation(f"ColorPair({R(t)},{R(b)}) raised {type(e).__name__}: {e}", case)
                 break
             rec.count("pair_constructed")
             if not pv:
                 if label != "Not Readable" or not errs or not all(isinstance(m, str) and m for m in errs):
-                    rec.violation(f"invalid ColorPair({t!r},{b!r}): is_readable={label!r}, errors={errs!r}", case)
+                    rec.violation(f"invalid ColorPair({R(t)},{R(b)}): is_readable={label!r}, errors={errs!r}", case)
                     break
                 m, vr = settings[i % 6]
                 try:
                     out = p.make_readable(mode=m, very_readable=vr)
                 except BaseException as e:
-                    rec.violation(f"invalid ColorPair({t!r},{b!r}).make_readable raised {type(e).__name__}: {e}", case)
+                    rec.violation(f"invalid ColorPair({R(t)},{R(b)}).make_readable raised {type(e).__name__}: {e}", case)
                     break
                 if out != (None, False):
-                    rec.violation(f"invalid ColorPair({t!r},{b!r}).make_readable(mode={m},very_readable={vr}) = {out!r}, expected (None, False)", case)
+                    rec.violation(f"invalid ColorPair({R(t)},{R(b)}).make_readable(mode={m},very_readable={vr}) = {R(out)}, expected (None, False)", case)
                     break
             elif label not in ("Not Readable", "Readable", "Very Readable"):
-                rec.violation(f"ColorPair({t!r},{b!r}).is_readable = {label!r}", case)
+                rec.violation(f"ColorPair({R(t)},{R(b)}).is_readable = {label!r}", case)
                 break
         if not v and i % 12 == 0:
             bulk_with_invalid(rec, lib, rnd, x, case)
         if cls == "sequence" and i % 10 == 6:
             bulk_equal_twins(rec, lib, x, case)
         if len(rec.samples) < 3 and not v and cls in ("near_miss", "sequence"):
-            rec.sample({"input": repr(x), "is_valid": False, "error": lib.Color(x).error})
+            rec.sample({"input": R(x), "is_valid": False, "error": lib.Color(x).error})
 
 
 _SINGLE = {}
@@ -239,24 +253,24 @@ def bulk_with_invalid(rec, lib, rnd, x, case):
     except BaseException as e:
         if isinstance(e, (KeyboardInterrupt, SystemExit, MemoryError)):
             raise
-        rec.violation(f"make_readable_bulk with invalid entry {bad!r} at position {pos} raised {type(e).__name__}: {e}", case)
+        rec.violation(f"make_readable_bulk with invalid entry {R(bad)} at position {pos} raised {type(e).__name__}: {e}", case)
         return
     rec.count("bulk_with_invalid_judged")
     if len(res) != len(entries):
-        rec.violation(f"make_readable_bulk returned {len(res)} results for {len(entries)} entries (invalid entry {bad!r})", case)
+        rec.violation(f"make_readable_bulk returned {len(res)} results for {len(entries)} entries (invalid entry {R(bad)})", case)
         return
     col, status = res[pos]
-    same = (col is bad[0]) or (type(col) is type(bad[0]) and repr(col) == repr(bad[0]))
+    same = (col is bad[0]) or (type(col) is type(bad[0]) and R(col) == R(bad[0]))
     if status in ("readable", "very readable") or "invalid" not in str(status).lower() or not same:
-        rec.violation(f"make_readable_bulk: invalid entry {bad!r} reported as {(col, status)!r} (must be returned unchanged and marked invalid)", case)
+        rec.violation(f"make_readable_bulk: invalid entry {R(bad)} reported as {R((col, status))} (must be returned unchanged and marked invalid)", case)
     for j, e in enumerate(entries):
         if j == pos:
             continue
-        k = repr(e)
+        k = R(e)
         if k not in _SINGLE:
             _SINGLE[k] = lib.make_readable_bulk([e])[0]
         if res[j] != _SINGLE[k]:
-            rec.violation(f"make_readable_bulk: entry {e!r} gives {res[j]!r} next to invalid entry {bad!r} but {_SINGLE[k]!r} alone", case)
+            rec.violation(f"make_readable_bulk: entry {R(e)} gives {R(res[j])} next to invalid entry {R(bad)} but {R(_SINGLE[k])} alone", case)
 
 
 def retyped(x):
@@ -293,12 +307,12 @@ def bulk_equal_twins(rec, lib, x, case):
         except BaseException as e:
             if isinstance(e, (KeyboardInterrupt, SystemExit, MemoryError)):
                 raise
-            rec.violation(f"make_readable_bulk with equal-comparing twins {order!r} raised {type(e).__name__}: {e}", case)
+            rec.violation(f"make_readable_bulk with equal-comparing twins {R(order)} raised {type(e).__name__}: {e}", case)
             return
         rec.count("bulk_equal_twins_judged")
-        if repr(res) != repr(alone):
-            k = next(i for i in range(len(entries)) if repr(res[i]) != repr(alone[i]))
-            rec.violation(f"make_readable_bulk: entry {entries[k]!r} gives {res[k]!r} next to its equal-comparing twin but {alone[k]!r} alone", case)
+        if R(res) != R(alone):
+            k = next(i for i in range(len(entries)) if R(res[i]) != R(alone[i]))
+            rec.violation(f"make_readable_bulk: entry {R(entries[k])} gives {R(res[k])} next to its equal-comparing twin but {R(alone[k])} alone", case)
             return
 
 
@@ -309,14 +323,14 @@ def replay(case):
     x = from_json(case["x"])
     rec = Rec()
     v = check_color(rec, lib, x, case)
-    print(f"Color({x!r}): valid={v}")
+    print(f"Color({R(x)}): valid={v}")
     if v is not None:
         for t, b in ((x, "#777"), ("#777", x), (x, x)):
             try:
                 p = lib.ColorPair(t, b)
-                print(f"ColorPair({t!r},{b!r}): valid={p.is_valid} is_readable={p.is_readable!r} make_readable={p.make_readable()!r}")
+                print(f"ColorPair({R(t)},{R(b)}): valid={p.is_valid} is_readable={p.is_readable!r} make_readable={p.make_readable()!r}")
             except Exception as e:
-                print(f"ColorPair({t!r},{b!r}) RAISED {type(e).__name__}: {e}")
+                print(f"ColorPair({R(t)},{R(b)}) RAISED {type(e).__name__}: {e}")
                 rec.violation("raised", case)
         if v is False:
             bulk_with_invalid(rec, lib, random.Random(0), x, case)
